@@ -1469,6 +1469,29 @@ impl PhysicalOperator for ExternalSortExec {
         // Clean up
         let _ = std::fs::remove_dir_all(&spill_dir);
 
+        // The fused LIMIT (`with_fetch`): the in-memory path passes it to
+        // lexsort, the merge produces every row — keep the first `fetch`.
+        let result = match self.fetch {
+            Some(fetch) => {
+                let mut remaining = fetch;
+                let mut limited = Vec::new();
+                for batch in result {
+                    if remaining == 0 {
+                        break;
+                    }
+                    if batch.num_rows() <= remaining {
+                        remaining -= batch.num_rows();
+                        limited.push(batch);
+                    } else {
+                        limited.push(batch.slice(0, remaining));
+                        remaining = 0;
+                    }
+                }
+                limited
+            }
+            None => result,
+        };
+
         Ok(Box::pin(stream::iter(result.into_iter().map(Ok))))
     }
 
